@@ -305,6 +305,15 @@ func init() {
 		a.IDs = append(a.IDs, [16]byte{0xff, 0xff, 0xff, 0xff, 0xff, 0xff, 0xff, 0xff, 0xff, 0xff, 0xff, 0xff, 0xff, 0xff, 0xff, 0xff})
 	})
 	add("main.ids.known-as-non-recovery", func(a *a2spec) { a.Count = 1 })
+	// the recovery set is the file with the LARGER id alone; the smaller id is listed as a non-recovery file behind it
+	// (each of the two lists is sorted): a reader that re-sorts the whole id list changes which file is protected
+	add("main.ids.smaller-id-as-non-recovery", func(a *a2spec) {
+		if len(a.IDs) == 2 {
+			a.IDs[0], a.IDs[1] = a.IDs[1], a.IDs[0]
+			a.Count = 1
+		}
+	})
+	add("main.ids.unknown-non-recovery-sorting-first", func(a *a2spec) { a.IDs = append(a.IDs, [16]byte{1}) })
 	add("main.ids.none", func(a *a2spec) { a.IDs = nil })
 	add("main.ids.partial-id-appended", func(a *a2spec) { a.MainTail = []byte{1, 2, 3, 4} })
 	add("main.ids.partial-id-appended-12", func(a *a2spec) { a.MainTail = []byte{1, 2, 3, 4, 5, 6, 7, 8, 9, 10, 11, 12} })
@@ -1023,6 +1032,48 @@ func c19RunP2(c *c19Case, r *core.Rec) {
 			}
 			if matchable >= 0 && counts.UsableDataShardCount > matchable {
 				r.Violatef("usable-data-not-truthful", "%s: %d usable slices reported, but only %d declared checksum entries match bytes actually present", what, counts.UsableDataShardCount, matchable)
+			}
+			// a verdict "nothing to repair" is a statement about the declared recovery set: judged when the index declares
+			// it unambiguously (main packet present, distinct ids, exactly one description per recovery-set id, distinct names)
+			if !counts.RepairNeeded() && idxSpec.Main && int(idxSpec.Count) <= len(idxSpec.IDs) && len(idxSpec.MainTail) == 0 {
+				clear, bad := true, ""
+				seenID := map[[16]byte]bool{}
+				for _, id := range idxSpec.IDs {
+					if seenID[id] {
+						clear = false
+					}
+					seenID[id] = true
+				}
+				for _, id := range idxSpec.IDs[:idxSpec.Count] {
+					var ds []a2desc
+					for _, d := range idxSpec.Descs {
+						if !d.Drop && d.ID == id {
+							ds = append(ds, d)
+						}
+					}
+					if len(ds) != 1 {
+						clear = false
+						break
+					}
+					nm := string(ds[0].Name)
+					if i := strings.IndexByte(nm, 0); i >= 0 {
+						nm = nm[:i]
+					}
+					k := path.Clean("/d/" + nm)
+					if len(decl[k]) != 1 {
+						clear = false
+						break
+					}
+					if b, ok := fs.Get(k); !ok || uint64(len(b)) != ds[0].Len || md5.Sum(b) != ds[0].MD5 {
+						bad = k
+					}
+				}
+				if clear && bad != "" {
+					r.Violatef("verify-clean-but-recovery-set-file-not-as-declared", "%s: Verify says nothing needs repair, but %s - a file of the recovery set the index declares - is missing or differs from its declared length / MD5", what, bad)
+				}
+				if clear {
+					r.Count("clean_verdicts_judged", 1)
+				}
 			}
 			r.Count("verify_results", 1)
 		}
